@@ -382,7 +382,7 @@ def w_misc_commands(ctx, rng, i):
 
 
 def data_length(rng, i):
-    edges = list(range(1020, 1031)) + list(range(2044, 2053)) + list(range(3070, 3076)) + [1, 2, 3, 1023, 1024, 1025, 2047, 2048, 2049, 4096, 5000, 10000]
+    edges = list(range(1020, 1031)) + list(range(2044, 2053)) + list(range(3070, 3076)) + [1, 2, 3, 9, 10, 11, 99, 100, 101, 999, 1000, 1001, 1034, 1124, 2024, 2058, 1023, 1024, 1025, 2047, 2048, 2049, 3072 + 1000, 4096, 5000, 10000]
     if i % 2 == 0:
         return int(edges[(i // 2) % len(edges)])
     return int(rng.integers(1, 10001))
